@@ -10,15 +10,24 @@
 //!   and owned values holding the same bytes.
 //! * corpus / `--replay`: recorded sequences.
 //!
-//! After every operation the harness observes `len()`, `remaining()`, `is_empty()`, `chunk()` and
-//! the `as_ref()` segments (or the panic and the value left behind), checks them against the `Vec<u8>`
-//! reference, and asks the Lean model for the same step from the same state.
+//! After every operation the harness observes `len()`, `remaining()`, `is_empty()`, `has_remaining()`,
+//! `chunk()`, `chunks_vectored()` (0, 1 and 3 slots) and the `as_ref()` segments (or the panic and the
+//! value left behind), checks them against the `Vec<u8>` reference, and asks the Lean model for the
+//! same step from the same state.
+//!
+//! The operations are `LongChain`'s own mutators and the consuming methods a caller reaches through
+//! `bytes::Buf`: `copy_to_bytes`, `copy_to_slice`, `get_u8`, `get_u16`, `get_u32` (on the unchanged
+//! crate the `bytes` defaults over `chunk` / `advance` / `remaining`; an override is where a
+//! regression would go). They are part of the random sequences and of a second exhaustive pass
+//! (`buf pass`: every sequence over the `Buf` methods and the old operations with a reduced payload
+//! alphabet, to a smaller depth).
 //!
 //! Non-trivial case: an operation sequence in which at least one operation is accepted (in range)
 //! while the chain holds bytes before or after it.
 
 use bytes::{Buf, Bytes};
 use cow_bytes::{CowBytes, LongChain};
+use std::io::IoSlice;
 use pvh::{Args, Driver, FailKind, Report, Rng, Tier, Value, catch, hex, hexd, json, shrink_list, unhex};
 use std::borrow::Borrow;
 use std::collections::{BTreeMap, HashMap, HashSet};
@@ -72,9 +81,21 @@ enum Op {
     Truncate(usize),
     Advance(usize),
     Clear,
+    /// `Buf::copy_to_bytes(n)`
+    CopyToBytes(usize),
+    /// `Buf::copy_to_slice(&mut [_; n])`
+    CopyToSlice(usize),
+    GetU8,
+    GetU16,
+    GetU32,
 }
 
-const KINDS: [&str; 9] = ["push", "insert", "pop", "remove", "split_to", "split_off", "truncate", "advance", "clear"];
+const NK: usize = 14;
+const KINDS: [&str; NK] =
+    ["push", "insert", "pop", "remove", "split_to", "split_off", "truncate", "advance", "clear", "copy_to_bytes", "copy_to_slice", "get_u8", "get_u16", "get_u32"];
+
+/// Largest destination `copy_to_slice` is offered (the destination has to be allocated).
+const MAX_SLICE: usize = 1 << 24;
 
 impl Op {
     fn kind(&self) -> usize {
@@ -88,6 +109,21 @@ impl Op {
             Op::Truncate(_) => 6,
             Op::Advance(_) => 7,
             Op::Clear => 8,
+            Op::CopyToBytes(_) => 9,
+            Op::CopyToSlice(_) => 10,
+            Op::GetU8 => 11,
+            Op::GetU16 => 12,
+            Op::GetU32 => 13,
+        }
+    }
+    /// The consuming `Buf` methods: the number of bytes asked for.
+    fn wanted(&self) -> Option<usize> {
+        match self {
+            Op::CopyToBytes(n) | Op::CopyToSlice(n) => Some(*n),
+            Op::GetU8 => Some(1),
+            Op::GetU16 => Some(2),
+            Op::GetU32 => Some(4),
+            _ => None,
         }
     }
     fn text(&self) -> String {
@@ -101,6 +137,11 @@ impl Op {
             Op::Truncate(n) => format!("truncate {n}"),
             Op::Advance(n) => format!("advance {n}"),
             Op::Clear => "clear".into(),
+            Op::CopyToBytes(n) => format!("copy_to_bytes {n}"),
+            Op::CopyToSlice(n) => format!("copy_to_slice {n}"),
+            Op::GetU8 => "get_u8".into(),
+            Op::GetU16 => "get_u16".into(),
+            Op::GetU32 => "get_u32".into(),
         }
     }
     fn parse(line: &str) -> Option<Op> {
@@ -115,6 +156,11 @@ impl Op {
             ["truncate", n] => Op::Truncate(n.parse().ok()?),
             ["advance", n] => Op::Advance(n.parse().ok()?),
             ["clear"] => Op::Clear,
+            ["copy_to_bytes", n] => Op::CopyToBytes(n.parse().ok()?),
+            ["copy_to_slice", n] => Op::CopyToSlice(n.parse().ok().filter(|n| *n <= MAX_SLICE)?),
+            ["get_u8"] => Op::GetU8,
+            ["get_u16"] => Op::GetU16,
+            ["get_u32"] => Op::GetU32,
             _ => return None,
         })
     }
@@ -130,8 +176,10 @@ impl Op {
                 buf.push(u8::from(s.stat));
                 buf.extend_from_slice(&s.bytes);
             }
-            Op::Remove(n) | Op::SplitTo(n) | Op::SplitOff(n) | Op::Truncate(n) | Op::Advance(n) => buf.extend_from_slice(&(*n as u64).to_le_bytes()),
-            Op::Pop | Op::Clear => {}
+            Op::Remove(n) | Op::SplitTo(n) | Op::SplitOff(n) | Op::Truncate(n) | Op::Advance(n) | Op::CopyToBytes(n) | Op::CopyToSlice(n) => {
+                buf.extend_from_slice(&(*n as u64).to_le_bytes());
+            }
+            Op::Pop | Op::Clear | Op::GetU8 | Op::GetU16 | Op::GetU32 => {}
         }
     }
     fn payload(&self) -> Option<&SegSpec> {
@@ -208,8 +256,48 @@ struct Obs {
     len: usize,
     rem: usize,
     empty: bool,
+    /// `Buf::has_remaining()`
+    more: bool,
     chunk: Vec<u8>,
+    /// what `Buf::chunks_vectored` offers for a destination of `IOV_SLOTS[i]` slots
+    iov: [Vec<Vec<u8>>; 3],
     segs: Vec<(bool, Vec<u8>)>,
+}
+
+const IOV_SLOTS: [usize; 3] = [0, 1, 3];
+
+/// `Buf::chunks_vectored` with `k` slots: the slices it filled in.
+fn vectored<B: Buf>(b: &B, k: usize) -> Vec<Vec<u8>> {
+    let mut dst = vec![IoSlice::new(&[]); k];
+    let n = b.chunks_vectored(&mut dst);
+    assert!(n <= k, "chunks_vectored returned {n} for {k} slots");
+    dst[..n].iter().map(|s| s.to_vec()).collect()
+}
+
+fn iov_text(l: &[Vec<u8>]) -> String {
+    if l.is_empty() { "-".into() } else { l.iter().map(|c| hexd(c)).collect::<Vec<_>>().join("+") }
+}
+
+fn iovs_text(iov: &[Vec<Vec<u8>>; 3]) -> String {
+    format!("{}|{}|{}", iov_text(&iov[0]), iov_text(&iov[1]), iov_text(&iov[2]))
+}
+
+/// What the property asks of `chunks_vectored` with `k` slots over the contents `all`.
+fn iov_ok(l: &[Vec<u8>], k: usize, all: &[u8]) -> Result<(), String> {
+    if l.len() > k {
+        return Err(format!("{} slices for {k} slots", l.len()));
+    }
+    if l.iter().any(Vec::is_empty) {
+        return Err(format!("an empty slice among {}", iov_text(l)));
+    }
+    let cat: Vec<u8> = l.iter().flatten().copied().collect();
+    if !all.starts_with(&cat) {
+        return Err(format!("the slices {} are not a prefix of the contents {}", iov_text(l), hexd(all)));
+    }
+    if k > 0 && !all.is_empty() && l.is_empty() {
+        return Err(format!("no slice offered for {k} slots while {} bytes remain", all.len()));
+    }
+    Ok(())
 }
 
 impl Obs {
@@ -218,7 +306,9 @@ impl Obs {
             len: c.len(),
             rem: c.remaining(),
             empty: c.is_empty(),
+            more: c.has_remaining(),
             chunk: c.chunk().to_vec(),
+            iov: [vectored(c, IOV_SLOTS[0]), vectored(c, IOV_SLOTS[1]), vectored(c, IOV_SLOTS[2])],
             segs: c.as_ref().iter().map(seg_of).collect(),
         }
     }
@@ -226,15 +316,22 @@ impl Obs {
         segs_text(self.segs.iter().map(|(s, b)| (*s, b.as_slice())))
     }
     fn text(&self) -> String {
-        format!("len={} rem={} empty={} chunk={} segs={}", self.len, self.rem, self.empty, hexd(&self.chunk), self.segs_text())
+        format!("len={} rem={} empty={} more={} chunk={} iov={} segs={}", self.len, self.rem, self.empty, self.more, hexd(&self.chunk), iovs_text(&self.iov), self.segs_text())
     }
     /// Compact binary form (for fingerprints).
     fn ser(&self, buf: &mut Vec<u8>) {
         buf.extend_from_slice(&(self.len as u64).to_le_bytes());
         buf.extend_from_slice(&(self.rem as u64).to_le_bytes());
-        buf.push(u8::from(self.empty));
+        buf.push(u8::from(self.empty) | (u8::from(self.more) << 1));
         buf.extend_from_slice(&(self.chunk.len() as u32).to_le_bytes());
         buf.extend_from_slice(&self.chunk);
+        for l in &self.iov {
+            buf.push(l.len() as u8);
+            for c in l {
+                buf.extend_from_slice(&(c.len() as u32).to_le_bytes());
+                buf.extend_from_slice(c);
+            }
+        }
         buf.extend_from_slice(&(self.segs.len() as u32).to_le_bytes());
         for (s, b) in &self.segs {
             buf.push(u8::from(*s));
@@ -273,6 +370,15 @@ impl Obs {
         if self.chunk != first {
             return Some(("chunk", format!("chunk() = {} but the first segment is {}", hexd(&self.chunk), hexd(first))));
         }
+        if self.more != (total > 0) {
+            return Some(("has-remaining", format!("has_remaining() = {} but the segments hold {} bytes", self.more, total)));
+        }
+        let all = self.concat();
+        for (l, k) in self.iov.iter().zip(IOV_SLOTS) {
+            if let Err(e) = iov_ok(l, k, &all) {
+                return Some(("chunks-vectored", format!("chunks_vectored with {k} slots: {e}")));
+            }
+        }
         None
     }
 }
@@ -282,6 +388,10 @@ enum Ret {
     Popped(Option<(bool, Vec<u8>)>),
     Removed((bool, Vec<u8>)),
     Part(Obs),
+    /// the bytes handed out by `copy_to_bytes` / written by `copy_to_slice`
+    Copied(Vec<u8>),
+    /// the number read by `get_u8` / `get_u16` / `get_u32`
+    Num(u64),
 }
 
 impl Ret {
@@ -291,6 +401,8 @@ impl Ret {
             Ret::Popped(None) => "none".into(),
             Ret::Popped(Some((s, b))) | Ret::Removed((s, b)) => seg_text(*s, b),
             Ret::Part(o) => format!("[{}]", o.text()),
+            Ret::Copied(b) => format!("b:{}", hexd(b)),
+            Ret::Num(n) => format!("n:{n}"),
         }
     }
 }
@@ -321,6 +433,15 @@ fn apply<'a>(c: &mut LongChain<'a>, op: &Op, payload: Option<CowBytes<'a>>) -> R
             c.clear();
             Ret::Unit
         }
+        Op::CopyToBytes(n) => Ret::Copied(c.copy_to_bytes(*n).to_vec()),
+        Op::CopyToSlice(n) => {
+            let mut dst = vec![0xA5u8; *n];
+            c.copy_to_slice(&mut dst);
+            Ret::Copied(dst)
+        }
+        Op::GetU8 => Ret::Num(u64::from(c.get_u8())),
+        Op::GetU16 => Ret::Num(u64::from(c.get_u16())),
+        Op::GetU32 => Ret::Num(u64::from(c.get_u32())),
     }
 }
 
@@ -339,6 +460,8 @@ enum RefRet {
     Unit,
     Seg(Option<Vec<u8>>),
     Part(Ref),
+    Copied(Vec<u8>),
+    Num(u64),
 }
 
 /// What the property requires of one operation.
@@ -442,6 +565,24 @@ impl Ref {
                 self.lens.clear();
                 Exp::Done(RefRet::Unit)
             }
+            Op::CopyToBytes(n) | Op::CopyToSlice(n) => {
+                if *n > total {
+                    return Exp::Rejected;
+                }
+                let back = self.split(*n);
+                let front = std::mem::replace(self, back);
+                Exp::Done(RefRet::Copied(front.bytes))
+            }
+            Op::GetU8 | Op::GetU16 | Op::GetU32 => {
+                let k = op.wanted().expect("size");
+                if k > total {
+                    return Exp::Rejected;
+                }
+                let back = self.split(k);
+                let front = std::mem::replace(self, back);
+                // big-endian: the first byte is the most significant
+                Exp::Done(RefRet::Num(front.bytes.iter().fold(0u64, |a, b| a * 256 + u64::from(*b))))
+            }
         }
     }
     fn text(&self) -> String {
@@ -504,6 +645,14 @@ impl StepOut {
             Some(Ret::Part(o)) => {
                 buf.push(5);
                 o.ser(buf);
+            }
+            Some(Ret::Copied(b)) => {
+                buf.push(6);
+                buf.extend_from_slice(b);
+            }
+            Some(Ret::Num(n)) => {
+                buf.push(7);
+                buf.extend_from_slice(&n.to_le_bytes());
             }
         }
         self.after.ser(buf);
@@ -572,6 +721,8 @@ fn eval_step<'a>(c: &mut LongChain<'a>, r: &mut Ref, before: Obs, op: &Op, paylo
                     (Ret::Popped(None), RefRet::Seg(None)) => None,
                     (Ret::Popped(Some((_, b))) | Ret::Removed((_, b)), RefRet::Seg(Some(e))) if b == e => None,
                     (Ret::Part(o), RefRet::Part(pr)) => against(o, pr, &format!("the chain returned by `{}`", op.text())),
+                    (Ret::Copied(b), RefRet::Copied(e)) if b == e => None,
+                    (Ret::Num(a), RefRet::Num(e)) if a == e => None,
                     _ => Some(("returned", format!("`{}` returned {}", op.text(), ret.text()))),
                 };
             }
@@ -688,7 +839,11 @@ fn shrink_case(init: Vec<SegSpec>, ops: Vec<Op>, cat: &'static str) -> (Vec<SegS
                 Op::SplitOff(n) => smaller(*n).into_iter().map(Op::SplitOff).collect(),
                 Op::Truncate(n) => smaller(*n).into_iter().map(Op::Truncate).collect(),
                 Op::Advance(n) => smaller(*n).into_iter().map(Op::Advance).collect(),
-                Op::Pop | Op::Clear => vec![],
+                Op::CopyToBytes(n) => smaller(*n).into_iter().map(Op::CopyToBytes).collect(),
+                Op::CopyToSlice(n) => smaller(*n).into_iter().map(Op::CopyToSlice).collect(),
+                Op::GetU32 => vec![Op::GetU8, Op::GetU16],
+                Op::GetU16 => vec![Op::GetU8],
+                Op::Pop | Op::Clear | Op::GetU8 => vec![],
             };
             for cnd in cands {
                 let old = std::mem::replace(&mut ops[k], cnd);
@@ -802,7 +957,7 @@ struct Acc {
     evals: u64,
     nontrivial: HashSet<u64>,
     nontrivial_overflow: u64,
-    outcomes: [[u64; 3]; 9],
+    outcomes: [[u64; 3]; NK],
     depth_hist: BTreeMap<usize, u64>,
     /// fingerprint of (state, op) -> (fingerprint of what the implementation did, line kept for the model)
     seen: HashMap<u128, (u64, bool)>,
@@ -881,7 +1036,7 @@ impl Acc {
                 self.nontrivial_overflow += 1;
             }
         }
-        for k in 0..9 {
+        for k in 0..NK {
             for j in 0..3 {
                 self.outcomes[k][j] += o.outcomes[k][j];
             }
